@@ -74,10 +74,11 @@ type index struct {
 	tr    *tl.Trace
 	sum   *tl.Summary
 	r     *rand.Rand
+	style int // extension style: 0 random lists, 1 uniform list with a distinctive id on every section start
 }
 
 func newIndex(bsize int, tr *tl.Trace, sum *tl.Summary, r *rand.Rand, n int) *index {
-	ix := &index{db: rawdb.NewMemoryDatabase(), bsize: bsize, tr: tr, sum: sum, r: r}
+	ix := &index{db: rawdb.NewMemoryDatabase(), bsize: bsize, tr: tr, sum: sum, r: r, style: n % 2}
 	h := common.BigToHash(common.Big1)
 	h[0] = byte(n)
 	switch {
@@ -159,10 +160,10 @@ func cloneExt(e []uint16) []uint16 {
 func (ix *index) appendItems(items []item) {
 	done := []item{}
 	for _, it := range items {
-		logged := item{it.ID, cloneExt(it.Ext)}
-		if logged.Ext == nil {
-			logged.Ext = []uint16{}
+		if it.Ext == nil {
+			it.Ext = ix.extFor(int(ix.w.Live().Desc.Entries))
 		}
+		logged := item{it.ID, cloneExt(it.Ext)}
 		err := ix.w.Append(it.ID, cloneExt(it.Ext)) // append sorts its argument in place
 		if err != nil {
 			if len(done) > 0 {
@@ -416,6 +417,27 @@ func (ix *index) stored() []uint64 {
 	return ids
 }
 
+// extFor chooses the extension of the element appended to a live block holding `entries`
+// elements.  Style 1 keeps the descriptor bitmap sparse: every element carries {1} except the
+// first element of a restart section, which carries an id of its own - so that removing a
+// section start must change the bitmap.
+func (ix *index) extFor(entries int) []uint16 {
+	if ix.bsize == 0 {
+		return []uint16{}
+	}
+	if ix.style == 1 {
+		if entries%256 == 0 {
+			max := 15
+			if ix.bsize == 34 {
+				max = 271
+			}
+			return []uint16{uint16(2 + (entries/256+ix.r.Intn(3))%max)}
+		}
+		return []uint16{1}
+	}
+	return ix.randExt()
+}
+
 func (ix *index) randExt() []uint16 {
 	if ix.bsize == 0 {
 		return []uint16{}
@@ -563,7 +585,7 @@ func (ix *index) nextIDs(base uint64, n int) []item {
 			break
 		}
 		base += gap
-		out = append(out, item{base, ix.randExt()})
+		out = append(out, item{base, nil}) // the extension is chosen at append time
 	}
 	return out
 }
@@ -720,6 +742,11 @@ func (ix *index) scenario(steps int) {
 			default:
 				tail = ds[ix.r.Intn(len(ds))].Max + uint64(ix.r.Intn(3)) - 1
 			}
+			if ix.r.Intn(2) == 0 {
+				// exactly the maximum of the first block: that block holds an id >= tail and must stay
+				ix.prune(ds[0].Max)
+				ix.observe(false)
+			}
 			ix.prune(tail)
 			shape += "P"
 		}
@@ -733,7 +760,53 @@ func (ix *index) scenario(steps int) {
 			}
 		}
 	}
+	ix.epilogue()
 	shapes[shape]++
+}
+
+// epilogue visits, in every scenario, the three boundary situations a random life may miss:
+// a pop that removes the first element of a restart section, a reopen of the previous block,
+// and tails equal to / one above a block maximum.
+func (ix *index) epilogue() {
+	ids := ix.stored()
+	var top uint64
+	if len(ids) > 0 {
+		top = ids[len(ids)-1]
+	}
+	if top > maxID-1_000_000 {
+		return
+	}
+	if !ix.open("writer", top) {
+		return
+	}
+	need := 300 - int(ix.w.Live().Desc.Entries)%256
+	ix.appendItems(ix.nextIDs(top, need))
+	ix.finish()
+	ix.close()
+	ids = ix.stored()
+	top = ids[len(ids)-1]
+	if !ix.open("deleter", top) {
+		return
+	}
+	n := int(ix.d.Live().Desc.Entries)%256 + 2 // crosses the start of the last section
+	if n > len(ids) {
+		n = len(ids)
+	}
+	popped := make([]uint64, 0, n)
+	for i := 0; i < n; i++ {
+		popped = append(popped, ids[len(ids)-1-i])
+	}
+	ix.pop(popped[:n-1])
+	ix.pop(popped[n-1:]) // logged on its own: the state right after the section start went away
+	ix.finish()
+	ix.close()
+	ix.observe(false)
+	if ds := ix.meta(); len(ds) > 0 {
+		ix.prune(ds[0].Max) // the first block still holds an id >= tail
+		ix.observe(false)
+		ix.prune(ds[0].Max + 1) // now it does not
+		ix.observe(false)
+	}
 }
 
 // ------------------------------------------------------------------ TLC plans
